@@ -510,3 +510,50 @@ def run(ctx) -> None:  # noqa: F811
     n = memo2.check(ctx, modules={"abtem.finite_difference"})
     ctx.ok("R-CACHEKEY", "scan", "abtem/", f"{n} cache stores found in the anchored modules; positive control matched")
     _inner_run(ctx)
+
+
+# ---- added after the seeded change C37-r3seed0: the periodic halo is valid for any ratio of stencil width and grid
+_inner_run_c37b = run
+
+
+def run(ctx) -> None:  # noqa: F811
+    ctx.rule("R-PERIODICHALO", "the boundary wrapper of the Laplace stencil extends the array periodically by the "
+             "stencil's half width on the two grid axes before the kernel runs: either through the array module's "
+             "pad(..., mode=<the wrapper's mode>) — which wraps as often as needed — or through index arithmetic "
+             "with a modulo.  A halo that is filled by copying slices of the padded buffer ([H : H + p] etc.) is the "
+             "periodic extension only while p <= H and p <= W; without a guard on that, grids narrower than the "
+             "stencil (quasi-1d grids, high accuracy on few points) get zeros or misplaced samples in the halo and a "
+             "plane wave is no longer an eigenfunction of the discrete Laplacian")
+    repo = ctx.repo
+    f = repo.function(FD, "_laplace_operator_stencil")
+    wrappers = [n for n in ast.walk(f.node) if isinstance(n, ast.FunctionDef) and n is not f.node and any(
+        isinstance(c, ast.Call) and isinstance(c.func, ast.Name) and c.func.id == "func" for c in ast.walk(n))
+        and not any(isinstance(m, ast.FunctionDef) and m is not n for m in ast.walk(n))]
+    ctx.require(len(wrappers) >= 1, f"{f.qualname}: boundary wrapper (the function that calls `func(...)`) not found")
+    for w in wrappers:
+        kcalls = [c for c in ast.walk(w) if isinstance(c, ast.Call) and isinstance(c.func, ast.Name) and c.func.id == "func"]
+        pads = [c for c in ast.walk(w) if isinstance(c, ast.Call) and last_attr(c) == "pad"]
+        stores = [st for st in ast.walk(w) if isinstance(st, ast.Assign) and isinstance(st.targets[0], ast.Subscript)
+                  and isinstance(st.value, ast.Subscript) and dotted(st.targets[0].value) == dotted(st.value.value)
+                  and dotted(st.value.value) is not None]
+        modulo = any(isinstance(b, ast.BinOp) and isinstance(b.op, ast.Mod) for b in ast.walk(w)) or any(
+            isinstance(c, ast.Call) and last_attr(c) in ("take", "roll") for c in ast.walk(w))
+        guard = any(isinstance(c, ast.Compare) and "padding" in norm_text(c) and "shape" in norm_text(c)
+                    for c in ast.walk(w)) or any(
+            isinstance(c, ast.Compare) and {x.id for x in ast.walk(c) if isinstance(x, ast.Name)} >= {"p", "H"}
+            for c in ast.walk(w))
+        cons = f"{f.qualname}.{w.name}:periodic halo"
+        if pads:
+            fwd = any(any(k.arg == "mode" and isinstance(k.value, ast.Name) for k in c.keywords) for c in pads)
+            ctx.check(fwd, "R-PERIODICHALO", cons, f.loc(pads[0]), "halo from pad(..., mode=mode)",
+                      f"`{norm_text(pads[0])[:60]}` does not forward the wrapper's boundary mode", key_detail="halo")
+        elif stores:
+            ctx.check(modulo or guard, "R-PERIODICHALO", cons, f.loc(stores[0]),
+                      "manual halo with modulo indexing / guarded against halos wider than the grid",
+                      f"the halo is filled by copying slices of the padded buffer (`{norm_text(stores[0])[:60]}` ...) "
+                      "without a modulo and without a guard p <= grid size: for a grid narrower than the stencil's "
+                      "half width the copied slices are short or still zero, so the extension is not periodic",
+                      key_detail="halo")
+        else:
+            raise AnalysisError(f"{cons}: cannot see how the array is extended before `{norm_text(kcalls[0])[:40]}`")
+    _inner_run_c37b(ctx)
